@@ -32,6 +32,10 @@ var t0 = time.Unix(1600000000, 0).UTC()
 //	     deadline +Rearm ms (what the writer's callbacks do), -1: it does not.
 //	ack: acknowledge (S, ID) with Kind ∈ puback pubrec pubrel pubcomp | non-acker conn
 //	exp: sweep with now = t0+D ms
+//	align: so many filler exchanges (session "filler", registered and acknowledged at once) that the
+//	     NEXT successful registration on this queue has the same ordinal modulo M as the latest
+//	     registration of key (S, ID) had — whatever per-queue counter of 8 or 16 bits the table
+//	     keeps, it shows the same value again
 type Op struct {
 	Op    string `json:"op"`
 	S     int    `json:"s,omitempty"`
@@ -39,6 +43,7 @@ type Op struct {
 	Kind  string `json:"kind,omitempty"`
 	D     int64  `json:"d"`
 	Rearm int64  `json:"rearm,omitempty"`
+	M     int    `json:"m,omitempty"`
 }
 
 type Case struct {
@@ -132,6 +137,9 @@ func run(c Case) (msg string, nontrivial bool) {
 	sweepNo := 0
 	inSweep := 0
 	finalSweep := false
+	count := 0                  // successful registrations on this queue so far
+	ordinal := map[string]int{} // key -> ordinal of its latest successful registration
+	fillerID := int32(0)
 	var register func(key, sess string, stored packet.Packet, expect byte, deadline time.Time, rearm int64) error
 	register = func(key, sess string, stored packet.Packet, expect byte, deadline time.Time, rearm int64) error {
 		r := &reg{key: key, stored: stored, expect: expect, deadline: deadline, rearm: rearm, sweepNo: inSweep}
@@ -148,6 +156,8 @@ func run(c Case) (msg string, nontrivial bool) {
 		if err == nil {
 			regs = append(regs, r)
 			live[key] = r
+			count++
+			ordinal[key] = count
 		}
 		return err
 	}
@@ -232,6 +242,33 @@ func run(c Case) (msg string, nontrivial bool) {
 				}
 				r.outcomes++
 				delete(live, key)
+			}
+		case "align":
+			if op.M <= 0 || ordinal[key] == 0 {
+				continue
+			}
+			n := ((ordinal[key]-(count+1))%op.M + op.M) % op.M
+			if n > 0 {
+				nontrivial = true
+			}
+			for j := 0; j < n; j++ {
+				fillerID = fillerID%60000 + 1
+				st, _, _ := mkStored("pub1", fillerID)
+				outcomes, wrong := 0, false
+				if err := q.Insert("filler", st, t0.Add(time.Duration(op.D)*time.Millisecond), func(expired bool, _, _ packet.Packet) {
+					outcomes++
+					wrong = wrong || expired
+				}); err != nil {
+					return fmt.Sprintf("step %d: filler registration filler/%d refused: %v", i, fillerID, err), nontrivial
+				}
+				count++
+				pk, _, _ := mkAck("puback", fillerID)
+				if err := q.Ack("filler", pk); err != nil || outcomes != 1 || wrong {
+					return fmt.Sprintf("step %d: filler exchange filler/%d acknowledged at once: err=%v, %d outcome(s), expired=%v", i, fillerID, err, outcomes, wrong), nontrivial
+				}
+			}
+			if len(events) != 0 {
+				return fmt.Sprintf("step %d: %d unrelated filler exchanges fired %d callback(s) of other entries (first: expired=%v key=%s)", i, n, len(events), events[0].expired, keyOf(events[0])), nontrivial
 			}
 		case "exp", "final":
 			now := t0.Add(time.Duration(op.D) * time.Millisecond)
@@ -373,6 +410,46 @@ func TestRandom(t *testing.T) {
 			c.Ops = append(c.Ops, genOp(t))
 		}
 		check(t, c)
+	})
+}
+
+// TestLongHistories: the same histories with long stretches of unrelated exchanges in between,
+// measured so that a key is registered again exactly 256·n or 65536·n registrations after its
+// previous registration (op align): state the table carries across a long history.
+func TestLongHistories(t *testing.T) {
+	rapid.Check(t, func(t *rapid.T) {
+		c := Case{IDs: rapid.SampledFrom(idMaps).Draw(t, "ids")}
+		rounds := rapid.IntRange(1, 3).Draw(t, "rounds")
+		for r := 0; r < rounds; r++ {
+			s, id := rapid.IntRange(0, 2).Draw(t, "s"), int32(rapid.IntRange(1, 3).Draw(t, "id"))
+			kind := rapid.SampledFrom([]string{"pub1", "pub2", "pubrel", "pubrec"}).Draw(t, "kind")
+			ackKind := map[string]string{"pub1": "puback", "pub2": "pubrec", "pubrel": "pubcomp", "pubrec": "pubrel"}[kind]
+			d1 := rapid.SampledFrom(dGrid).Draw(t, "d1")
+			c.Ops = append(c.Ops, Op{Op: "ins", S: s, ID: id, Kind: kind, D: d1, Rearm: -1})
+			for k := rapid.IntRange(0, 2).Draw(t, "between"); k > 0; k-- {
+				c.Ops = append(c.Ops, genOp(t))
+			}
+			if rapid.IntRange(0, 3).Draw(t, "resolve") > 0 {
+				c.Ops = append(c.Ops, Op{Op: "ack", S: s, ID: id, Kind: ackKind})
+			} else {
+				c.Ops = append(c.Ops, Op{Op: "exp", D: d1 + 1500})
+			}
+			for k := rapid.IntRange(0, 2).Draw(t, "between2"); k > 0; k-- {
+				c.Ops = append(c.Ops, genOp(t))
+			}
+			m := rapid.SampledFrom([]int{256, 65536, 65536, 65536}).Draw(t, "modulus")
+			c.Ops = append(c.Ops, Op{Op: "align", S: s, ID: id, Kind: kind, M: m, D: rapid.SampledFrom(dGrid).Draw(t, "fillerDeadline")})
+			d2 := d1 + rapid.SampledFrom([]int64{0, 600, 2000, 60000}).Draw(t, "later")
+			c.Ops = append(c.Ops, Op{Op: "ins", S: s, ID: id, Kind: kind, D: d2, Rearm: -1})
+			for k := rapid.IntRange(1, 4).Draw(t, "after"); k > 0; k-- {
+				c.Ops = append(c.Ops, genOp(t))
+			}
+			c.Ops = append(c.Ops, Op{Op: "exp", D: rapid.SampledFrom([]int64{d1 + 1100, d1 + 1600, d2 - 1100, d2 + 1600}).Draw(t, "sweep")})
+			if rapid.IntRange(0, 1).Draw(t, "ackLate") == 0 {
+				c.Ops = append(c.Ops, Op{Op: "ack", S: s, ID: id, Kind: ackKind})
+			}
+		}
+		check(t, c, "long")
 	})
 }
 
